@@ -59,7 +59,7 @@ func runC12(c c12Case, r *rep.Report) (key, msg string, stats map[string]int64) 
 			so.SetPingInterval(PI)
 			so.SetPingTimeout(PT)
 			w := rig.NewWorld(rig.Options{Server: so, UseHttpServer: c.Mode == "http-shutdown", AttachOpts: &config.AttachOptions{}})
-			defer w.Shutdown()
+			defer w.Finish()
 			cfg := rig.ClientCfg{Rev: c.Rev, Transport: c.Transport}
 			switch c.Mode {
 			case "graceful", "silent":
